@@ -601,7 +601,12 @@ func (interp *Interpreter) EvalWithContext(ctx context.Context, src string) (ref
 // invocation of EvalWithContext.
 func (interp *Interpreter) stop() {
 	atomic.AddUint64(&interp.id, 1)
+	interp.mutex.Lock()
 	close(interp.done)
+	// Frames of the cancelled evaluation keep the closed channel they were given.
+	// Evaluations started afterwards (plain Eval included) get an open one.
+	interp.done = make(chan struct{})
+	interp.mutex.Unlock()
 }
 
 func (interp *Interpreter) runid() uint64 { return atomic.LoadUint64(&interp.id) }
